@@ -973,7 +973,11 @@ class RealRejecting:
     self.ev_new = ev.Event(signal="W_REJECTED")
     self.outcome = {}
     self.bodies = {0: self.caller_body(), 1: lambda: obj.run_event(self.task, self.fabric, obj.queue)}
-    if info.get("canceller"):
+    if info.get("canceller") == "signal":
+      self.handoff = R.make_event(d, "handoff", False)
+      self.bodies[0] = self.caller_then_cancel_body()
+      self.bodies[3] = self.cancel_signal_body()
+    elif info.get("canceller"):
       ids = [r.uuid for r in obj.posted_events_queue]
       import uuid as _uuid
       key = ids[0] if info["canceller"] == "old" else _uuid.uuid4()
@@ -991,6 +995,31 @@ class RealRejecting:
         self.outcome["rejected"] = True
       except BaseException as ex:      # noqa
         self.outcome["error"] = "%s: %s" % (type(ex).__name__, ex)
+    return body
+
+  def caller_then_cancel_body(self):
+    info = self.info
+
+    def body():
+      post = self.obj.post_lifo if info["kind"] == "lifo" else self.obj.post_fifo
+      try:
+        uid = post(self.ev_new, period=1.0, times=info["times"], deferred=info["deferred"])
+        self.outcome["accepted"] = True
+        self.handoff.wait()
+        self.obj.cancel_event(uid)
+        self.outcome["cancelled_by_id"] = True
+      except BaseException as ex:      # noqa
+        self.outcome["error"] = "%s: %s" % (type(ex).__name__, ex)
+    return body
+
+  def cancel_signal_body(self):
+    def body():
+      try:
+        self.obj.cancel_events(self.ev_new)
+        self.outcome["cancel_events_returned"] = True
+        self.handoff.set()
+      except BaseException as ex:      # noqa
+        self.outcome["canceller_error"] = "%s: %s" % (type(ex).__name__, ex)
     return body
 
   def observe(self):
